@@ -1,7 +1,88 @@
 import GluonModel.Sexp
-open GluonModel
+import GluonModel.Share
+import GluonModel.Loader
+open GluonModel GluonModel.Share
+
+/-- sorts of the protocol: `d` GcPtr<DataStruct>, `a` GcPtr<ValueArray>, `f` Arc<[InternedStr]> -/
+def sortOfAtom : String → Nat
+  | "d" => 0
+  | "a" => 1
+  | "f" => 2
+  | _ => 3
+
+def sortName : Nat → String
+  | 0 => "d"
+  | 1 => "a"
+  | 2 => "f"
+  | _ => "?"
+
+partial def parseT : Sexp → Option T
+  | .atom "a" => some (.atom 0)
+  | .list (.atom "n" :: addr :: uniq :: .atom s :: kids) => do
+    let addr ← addr.toNat?
+    let uniq ← uniq.toNat?
+    let ks ← kids.mapM parseT
+    pure (.node addr (uniq != 0) (sortOfAtom s) ks)
+  | _ => none
+
+partial def parseD : Sexp → Option D
+  | .list (.atom "M" :: .atom s :: id :: kids) => do
+    let id ← id.toNat?
+    let ks ← kids.mapM parseD
+    pure (.marked (sortOfAtom s) id ks)
+  | .list (.atom "P" :: .atom s :: kids) => do
+    let ks ← kids.mapM parseD
+    pure (.plain (sortOfAtom s) ks)
+  | .list [.atom "R", .atom s, id] => do
+    let id ← id.toNat?
+    pure (.ref (sortOfAtom s) id)
+  | _ => none
+
+/-- The Marked/Plain/Reference skeleton (atoms are not part of the protocol). -/
+partial def renderD : D → List String
+  | .atom _ => []
+  | .marked s id ks =>
+    ["(" ++ " ".intercalate (["M", sortName s, toString id] ++ (ks.map renderD).flatten) ++ ")"]
+  | .plain s ks => ["(" ++ " ".intercalate (["P", sortName s] ++ (ks.map renderD).flatten) ++ ")"]
+  | .ref s id => ["(R " ++ sortName s ++ " " ++ toString id ++ ")"]
+
+def okPattern (d : D) : String := "(" ++ " ".intercalate ("ok" :: renderD d) ++ ")"
+
+def answerDe (toks : List Tok) : String :=
+  match de toks with
+  | .ok t => okPattern (serD [] t).1
+  | .error (.missing id) => "(missing " ++ toString id ++ ")"
+  | .error .eof => "eof"
+
+def topD : List Sexp → Option D
+  | [] => some (.atom 0)
+  | [x] => parseD x
+  | _ => none
 
 def handle : List Sexp → String
-  | _ => "unimplemented"
+  | [.atom "ser", t] =>
+    match parseT t with
+    | some t => okPattern (serD [] t).1
+    | none => "bad-request"
+  | .atom "de" :: ds =>
+    match topD ds with
+    | some d => answerDe (flat d)
+    | none => "bad-request"
+  | .atom "detrunc" :: k :: ds =>
+    match k.toNat?, topD ds with
+    | some k, some d =>
+      -- the harness cuts the text right before the k-th Marked/Plain/Reference token
+      let toks := (flat d).filter (fun t => match t with | .atom _ => false | _ => true)
+      answerDe (toks.take k)
+    | _, _ => "bad-request"
+  | [.atom "globals", .list defined, .list wanted] =>
+    match defined.mapM Sexp.str?, wanted.mapM Sexp.str? with
+    | some ds, some ws =>
+      match Loader.resolveGlobals (ds.map (fun d => (d, 0))) ws with
+      | .ok _ => "ok"
+      | .error => "error"
+      | .panic => "panic"
+    | _, _ => "bad-request"
+  | _ => "bad-request"
 
 def main : IO Unit := driverLoop handle
